@@ -22,7 +22,7 @@ type rolloutOutcome struct {
 	Children  map[string]string
 	Revisions []string
 	Updated   string
-	ReqCounts []int // requests per rollout-phase sync (baseline only)
+	ReqCounts []int   // requests per rollout-phase sync (baseline only)
 	RevReqs   [][]int // per rollout-phase sync: indices of the requests on ControllerRevisions (baseline only)
 	Mixed     []bool
 }
